@@ -392,16 +392,16 @@ def seq_check(prop, tier, seed, cfg):
     workers = tcfg.get("workers", NCPU)
     base = (seed * 1000003 + int(hashlib.sha256(prop.encode()).hexdigest()[:6], 16)) % (2 ** 31)
     jobs = []
-    plan = cfg.get("profiles") or [(cfg["profile"], cfg.get("kinds"))]
+    plan = cfg.get("profiles") or [(cfg["profile"], cfg.get("kinds"), mode, 1.0)]
     for w in range(workers):
-        profile, kinds = plan[w % len(plan)]
-        jobs.append((w, profile, kinds, 0))
+        profile, kinds, wmode, scale = plan[w % len(plan)]
+        jobs.append((w, (profile, wmode, scale), kinds, 0))
 
     def run_worker(job):
-        w, profile, kinds, attempt = job
+        w, (profile, wmode, scale), kinds, attempt = job
         env = dict(os.environ, **SAN_ENV)
-        env["RC_PARAMS"] = "seed=%d max_success=%d max_size=%d" % (base + w * 7919 + attempt * 104729, tcfg["cases"], tcfg["max_size"])
-        cmd = [binp, "gen", "--property", prop, "--mode", mode, "--profile", profile, "--out", work, "--worker", str(w)]
+        env["RC_PARAMS"] = "seed=%d max_success=%d max_size=%d" % (base + w * 7919 + attempt * 104729, max(1, int(tcfg["cases"] * scale)), tcfg["max_size"])
+        cmd = [binp, "gen", "--property", prop, "--mode", wmode, "--profile", profile, "--out", work, "--worker", str(w)]
         if kinds:
             cmd += ["--kinds", ",".join(kinds)]
         for f in ("stats-w%d.txt", "fail-w%d.case", "crash-w%d.case"):
@@ -426,7 +426,7 @@ def seq_check(prop, tier, seed, cfg):
             results = list(ex.map(run_worker, pending))
         pending = []
         for (job, rc, err) in results:
-            w, profile, kinds, attempt = job
+            w, (profile, wmode, scale), kinds, attempt = job
             st = parse_stats(os.path.join(work, "stats-w%d.txt" % w))
             if st:
                 for k in ("evaluations", "generated", "nontrivial"):
@@ -448,9 +448,9 @@ def seq_check(prop, tier, seed, cfg):
                     path = os.path.join(repdir, name)
                     with open(path, "w") as fh:
                         fh.write("# property %s mode %s\n# predicate %s [%s] step %s\n# %s\n%s" % (
-                            prop, mode, st.get("fail_pred"), st.get("fail_tags"), st.get("fail_step"), st.get("fail_msg"), st["fail_case"]))
+                            prop, wmode, st.get("fail_pred"), st.get("fail_tags"), st.get("fail_step"), st.get("fail_msg"), st["fail_case"]))
                     # confirm in a fresh process, three times
-                    oks = [run_replay(binp, prop, mode, path) for _ in range(3)]
+                    oks = [run_replay(binp, prop, wmode, path) for _ in range(3)]
                     if all(o["verdict"] == 1 for o in oks):
                         kf = match_known(prop, oks[0]["pred"], st["fail_case"])
                         if kf:
@@ -474,13 +474,13 @@ def seq_check(prop, tier, seed, cfg):
                     if prop == "C08":
                         def same(r, sig=sig):
                             return r["crash"] and crash_signature(r["err"]).split(":")[0:2] == sig.split(":")[0:2]
-                        r0 = run_replay(binp, prop, mode, cpath)
+                        r0 = run_replay(binp, prop, wmode, cpath)
                         if r0["crash"]:
-                            mtext = minimize(binp, prop, mode, text, same, work, budget_s=90)
+                            mtext = minimize(binp, prop, wmode, text, same, work, budget_s=90)
                             name = "%s-%s-seed%d-w%d-crash.case" % (prop, tier, seed, w)
                             path = os.path.join(repdir, name)
                             with open(path, "w") as fh:
-                                fh.write("# property C08 mode %s\n# %s\n%s" % (mode, sig, mtext))
+                                fh.write("# property C08 mode %s\n# %s\n%s" % (wmode, sig, mtext))
                             violations.append((path, sig))
                         else:
                             notes.append("worker %d died (%s) but its last case replays cleanly - not counted" % (w, sig))
@@ -489,7 +489,7 @@ def seq_check(prop, tier, seed, cfg):
                         if len(foreign_samples) < 3:
                             foreign_samples.append("# process died: %s\n%s" % (sig, text))
                         if attempt < 3 and not violations:
-                            pending.append((w, profile, kinds, attempt + 1))
+                            pending.append((w, (profile, wmode, scale), kinds, attempt + 1))
                 else:
                     notes.append("worker %d died without leaving a case: %s" % (w, err[-300:]))
 
